@@ -1169,7 +1169,7 @@ fn gen_targeted(rng: &mut Rng, out: &mut Vec<Case>) {
     let v = vac_op(rng);
     let maybe_reopen = |rng: &mut Rng| if rng.chance(1, 4) { "reopen".to_string() } else { String::new() };
     let end_rb = |rng: &mut Rng| if rng.chance(2, 3) { "rollback" } else { "drop" };
-    let shape = rng.below(16);
+    let shape = rng.below(17);
     let mut ops: Vec<String> = Vec::new();
     let mut table = "t";
     let mut extra: Vec<&str> = vec!["targeted"];
@@ -1351,6 +1351,22 @@ fn gen_targeted(rng: &mut Rng, out: &mut Vec<Case>) {
             ops.push("reopen".into());
             ops.push(vac_op(rng).into());
             extra.push("t_many_txns");
+        }
+        15 => {
+            // a row inserted and updated inside ONE transaction that is the last to commit before VACUUM (its versions are
+            // above the horizon: the delta is kept), the update changing whether v is NULL — in either direction
+            let to_value = rng.chance(1, 2);
+            ops.push("s1 begin".into());
+            ops.push(format!("s1 ins t 11 {}", if to_value { "null" } else { "110" }));
+            ops.push(format!("s1 upd t v set {} where k eq 11", if to_value { "5" } else { "null" }));
+            if rng.chance(1, 2) {
+                ops.push(format!("s1 upd t v set {} where k eq {}", if to_value { "null" } else { "6" }, k));
+            }
+            ops.push("s1 commit".into());
+            ops.push(v.into());
+            ops.push("db sel t".into());
+            ops.push(vac_op(rng).into());
+            extra.push("t_null_transition");
         }
         _ => {
             // failing statements (first-row failures) before the vacuum: their transactions are aborted ones too
